@@ -82,23 +82,41 @@ func checkC09(r *Run) {
 			r1.Bad(key+"/carried", m.After.Pos(), "the wait duration is not carried from one iteration to the next (no loop-carried value): consecutive failures do not back off")
 		} else {
 			// (a)+(b): leaves of the waited value
+			isBase := func(v ssa.Value) bool {
+				_, ok := isFieldLoad(c.Resolve(v), "ReconnectOptions", "ReconnectWaitBase")
+				return ok
+			}
+			onSuccess := func(in ssa.Instruction) bool {
+				for _, e := range m.ConnOK {
+					if DominatedByEdge(f, in, e.B, e.K, PathQ{}) {
+						return true
+					}
+				}
+				return false
+			}
+			lastOf := func(b *ssa.BasicBlock) ssa.Instruction {
+				if b == nil || len(b.Instrs) == 0 {
+					return nil
+				}
+				return b.Instrs[len(b.Instrs)-1]
+			}
 			okLeaves := true
 			for _, lf := range phiLeaves(waited, map[ssa.Value]bool{header: true}) {
 				switch {
 				case lf.V == ssa.Value(header):
-				case func() bool { _, ok := isFieldLoad(lf.V, "ReconnectOptions", "ReconnectWaitBase"); return ok }():
-					// reset: only on the success edge of Connect
-					in := lf.V.(ssa.Instruction)
-					dom := false
-					for _, e := range m.ConnOK {
-						if DominatedByEdge(f, in, e.B, e.K, PathQ{}) {
-							dom = true
-						}
+				case isBase(lf.V):
+					// reset: only on the success edge of Connect — either the load itself sits there, or the value
+					// (loaded earlier) enters the waited value through a phi edge that lies there
+					in, _ := lf.V.(ssa.Instruction)
+					if (in != nil && onSuccess(in)) || (lastOf(lf.Pred) != nil && onSuccess(lastOf(lf.Pred))) {
+						continue
 					}
-					if !dom {
-						okLeaves = false
-						r1.Bad(key+"/reset", in.Pos(), "the back-off is reset to ReconnectWaitBase on a path that is not the success edge of Connect (e.g. right after a successful dial): consecutive CONNECT-level failures are all retried after only the base delay")
+					okLeaves = false
+					pos := m.After.Pos()
+					if in != nil {
+						pos = in.Pos()
 					}
+					r1.Bad(key+"/reset", pos, "the back-off is reset to ReconnectWaitBase on a path that is not the success edge of Connect (e.g. right after a successful dial): consecutive CONNECT-level failures are all retried after only the base delay")
 				default:
 					okLeaves = false
 					r1.Bad(key+"/waited", m.After.Pos(), "the waited duration can be %s, which is neither the carried back-off nor a reset to ReconnectWaitBase", describeVal(lf.V))
@@ -109,7 +127,7 @@ func checkC09(r *Run) {
 			for i, e := range header.Edges {
 				p := header.Block().Preds[i]
 				if !header.Block().Dominates(p) { // entry edge
-					if _, ok := isFieldLoad(e, "ReconnectOptions", "ReconnectWaitBase"); ok {
+					if isBase(e) {
 						entryOK = true
 					} else {
 						okLeaves = false
@@ -126,7 +144,38 @@ func checkC09(r *Run) {
 			} else {
 				r1.OK(key+"/wait-every-round", m.WaitSel.Pos(), "every way round the loop passes the wait")
 			}
-			// (d) carried value
+			// (d) carried value: every leaf of every back-edge operand is k*waited (k >= 2), or ReconnectWaitMax entering
+			// through an edge on which k*waited exceeded it
+			isMax := func(v ssa.Value) bool {
+				_, ok := isFieldLoad(c.Resolve(v), "ReconnectOptions", "ReconnectWaitMax")
+				return ok
+			}
+			exceeds := func(pred *ssa.BasicBlock) bool {
+				last := lastOf(pred)
+				if last == nil {
+					return false
+				}
+				for _, b := range f.Blocks {
+					iff := blockIf(b)
+					if iff == nil {
+						continue
+					}
+					bin, ok := iff.Cond.(*ssa.BinOp)
+					if !ok || (bin.Op != token.GTR && bin.Op != token.GEQ) {
+						continue
+					}
+					if g, ok := growthOf(bin.X, waited); !ok || g < 2 {
+						continue
+					}
+					if !isMax(bin.Y) {
+						continue
+					}
+					if DominatedByEdge(f, last, b, 0, PathQ{}) {
+						return true
+					}
+				}
+				return false
+			}
 			okGrow := true
 			n := 0
 			for i, e := range header.Edges {
@@ -134,48 +183,31 @@ func checkC09(r *Run) {
 				if !header.Block().Dominates(p) {
 					continue
 				}
-				n++
-				if g, ok := growthOf(e, waited); ok {
-					if g < 2 {
+				for _, lf := range phiLeaves(e, map[ssa.Value]bool{header: true}) {
+					pred := lf.Pred
+					if pred == nil {
+						pred = p
+					}
+					n++
+					pos := header.Pos()
+					if in, ok := lf.V.(ssa.Instruction); ok && in.Pos().IsValid() {
+						pos = in.Pos()
+					}
+					switch g, isG := growthOf(lf.V, waited); {
+					case isG && g >= 2:
+					case isG:
 						okGrow = false
-						r1.Bad(key+"/growth", e.(ssa.Instruction).Pos(), "the back-off grows by a factor below 2")
-					}
-					continue
-				}
-				if _, isMax := isFieldLoad(e, "ReconnectOptions", "ReconnectWaitMax"); isMax {
-					// only on the edge where growth > Max
-					dom := false
-					for _, b := range f.Blocks {
-						iff := blockIf(b)
-						if iff == nil {
-							continue
+						r1.Bad(key+"/growth", pos, "the back-off grows by a factor below 2")
+					case isMax(lf.V):
+						if !exceeds(pred) {
+							okGrow = false
+							r1.Bad(key+"/clamp", pos, "the wait is set to ReconnectWaitMax on a path where the doubled value does not exceed it")
 						}
-						bin, ok := iff.Cond.(*ssa.BinOp)
-						if !ok || (bin.Op != token.GTR && bin.Op != token.GEQ) {
-							continue
-						}
-						if g, ok := growthOf(bin.X, waited); !ok || g < 2 {
-							continue
-						}
-						if _, isM := isFieldLoad(bin.Y, "ReconnectOptions", "ReconnectWaitMax"); !isM {
-							continue
-						}
-						if len(p.Instrs) > 0 && DominatedByEdge(f, p.Instrs[0], b, 0, PathQ{}) {
-							dom = true
-						}
-					}
-					if !dom {
+					default:
 						okGrow = false
-						r1.Bad(key+"/clamp", e.(ssa.Instruction).Pos(), "the wait is set to ReconnectWaitMax on a path where the doubled value does not exceed it")
+						r1.Bad(key+"/growth", pos, "the value carried to the next iteration (%s) is not at least twice the value just waited: the lower bound on the delay does not double per consecutive failure", describeVal(lf.V))
 					}
-					continue
 				}
-				okGrow = false
-				pos := header.Pos()
-				if in, ok := e.(ssa.Instruction); ok {
-					pos = in.Pos()
-				}
-				r1.Bad(key+"/growth", pos, "the value carried to the next iteration (%s) is not at least twice the value just waited: the lower bound on the delay does not double per consecutive failure", describeVal(e))
 			}
 			if okGrow && n > 0 {
 				r1.OK(key+"/growth", header.Pos(), "carried value = k*waited (k >= 2), clamped to ReconnectWaitMax only when larger")
